@@ -2298,7 +2298,7 @@ static int sp_dsyrk(char uplo, char trans, number alpha, void *a,
 
         for (k=0; k<s->nnz; k++) {
           if (s->idx[k] <= j)
-            C[j*n + s->idx[k]] += alpha.d*((double *)s->val)[s->idx[k]];
+            C[j*n + s->idx[k]] += ((double *)s->val)[s->idx[k]];
         }
       } else {
         int m = n-j;
@@ -2306,7 +2306,7 @@ static int sp_dsyrk(char uplo, char trans, number alpha, void *a,
 
         for (k=0; k<s->nnz; k++) {
           if (s->idx[k] >= j)
-            C[j*n + s->idx[k]] += alpha.d*((double *)s->val)[s->idx[k]];
+            C[j*n + s->idx[k]] += ((double *)s->val)[s->idx[k]];
         }
       }
     }
